@@ -290,6 +290,18 @@ func (m *Monitors) stepInvariants(n *Node, pre Pre) {
 			m.fail("C15", "spi-called-with-cancelled-ctx", "node %d: RequestNewBlockProposal(h=%d) entered with a cancelled context", n.Idx, pc.H)
 		}
 	}
+	// C08 (store-time invariants, independent of which delivery caused the store): whatever a correct node stores is for this
+	// instance, from a committee member of that height, with a valid signature and the header tag of its kind
+	if m.on("C08") {
+		for _, e := range n.Sto.Log[pre.StoreLen:] {
+			if !e.Stored || e.Sender == string(n.ID) {
+				continue
+			}
+			if why := m.storedMessageOK(e); why != "" {
+				m.fail("C08", "stored-unauthorised-message:"+e.Kind+":"+why, "node %d stored a %s(h=%d,v=%d) claimed from %q that must not influence it: %s", n.Idx, e.Kind, e.H, e.V, e.Sender, why)
+			}
+		}
+	}
 	// C17 (node level): nothing is stored for a height the node was not at during this step
 	for _, e := range n.Sto.Log[pre.StoreLen:] {
 		if uint64(e.H) < pre.H || uint64(e.H) > h {
@@ -479,4 +491,45 @@ func pviewOf(proof []byte) uint64 {
 		return 0
 	}
 	return uint64(protocol.BlockProofReader(proof).BlockRef().View())
+}
+
+// storedMessageOK: the checks that hold for every PREPREPARE/PREPARE/COMMIT/VIEW_CHANGE a correct node stores, whatever path it took.
+func (m *Monitors) storedMessageOK(e fakes.StoreEvent) string {
+	w := m.w
+	com := w.Committee(e.H)
+	var hd interface {
+		Raw() []byte
+	}
+	var inst primitives.InstanceId
+	var tag, want protocol.MessageType
+	var snd *protocol.SenderSignature
+	switch x := e.Msg.(type) {
+	case *interfaces.PreprepareMessage:
+		h := x.Content().SignedHeader()
+		hd, inst, tag, want, snd = h, h.InstanceId(), h.MessageType(), protocol.LEAN_HELIX_PREPREPARE, x.Content().Sender()
+	case *interfaces.PrepareMessage:
+		h := x.Content().SignedHeader()
+		hd, inst, tag, want, snd = h, h.InstanceId(), h.MessageType(), protocol.LEAN_HELIX_PREPARE, x.Content().Sender()
+	case *interfaces.CommitMessage:
+		h := x.Content().SignedHeader()
+		hd, inst, tag, want, snd = h, h.InstanceId(), h.MessageType(), protocol.LEAN_HELIX_COMMIT, x.Content().Sender()
+	case *interfaces.ViewChangeMessage:
+		h := x.Content().SignedHeader()
+		hd, inst, tag, want, snd = h, h.InstanceId(), h.MessageType(), protocol.LEAN_HELIX_VIEW_CHANGE, x.Content().Sender()
+	default:
+		return ""
+	}
+	if inst != Instance {
+		return "instance"
+	}
+	if e.Kind != "PP" && tag != want { // the proposal embedded in a NEW_VIEW is stored as PP; its tag is not demanded (DESIGN section 10)
+		return "type-tag"
+	}
+	if !ref.IsMember(com, snd.MemberId()) {
+		return "sender-not-member"
+	}
+	if !w.Reg.VerifyMsg(e.H, hd.Raw(), snd.MemberId(), snd.Signature()) {
+		return "signature"
+	}
+	return ""
 }
